@@ -11,6 +11,7 @@ from sa.absint import AV, TOP, INF, const
 from sa.astutil import (call_name, calls_in, dotted, norm, walk_no_nested, last_attr,
                         func_params, fact_texts, names_in, try_fold)
 from sa.loader import AnalysisError
+from sa.canon import canon
 from sa.tables import Cfg, module_constants
 from sa import typestate
 
@@ -405,10 +406,40 @@ def run(ctx):
     if len(apps) != 1:
         raise AnalysisError('C16.R2: backbone determinant site not found')
     owner = typestate._owner_of_det_list(apps[0].func.value)
-    val_stmt = None
-    for s in walk_no_nested(sbd):
-        if isinstance(s, ast.Assign) and norm(s.targets[0]) == 'value':
-            val_stmt = s
+    # the value expression of the determinant that is appended
+    def det_value_expr(fn, call):
+        """Raw (un-expanded) value expression of the determinant appended by
+        ``call``: found through the definition of the appended local that
+        reaches the call."""
+        arg = call.args[0]
+        if isinstance(arg, ast.Name):
+            # nearest preceding definition in the same block, else the only one
+            stmt = call._parent
+            blk = stmt._parent
+            found = None
+            for fld in ('body', 'orelse'):
+                body = getattr(blk, fld, None)
+                if isinstance(body, list) and stmt in body:
+                    for st in reversed(body[:body.index(stmt)]):
+                        if isinstance(st, ast.Assign) and norm(st.targets[0]) == arg.id:
+                            found = st
+                            break
+            if found is None:
+                defs = [st for st in walk_no_nested(fn) if isinstance(st, ast.Assign)
+                        and norm(st.targets[0]) == arg.id]
+                found = defs[0] if len(defs) == 1 else None
+            if found is None:
+                return None
+            arg = found.value
+        if isinstance(arg, ast.Call) and call_name(arg) == 'Determinant' and len(arg.args) == 2:
+            return arg.args[1]
+        if isinstance(arg, ast.List) and len(arg.elts) == 2:
+            return arg.elts[1]
+        return None
+    bb_vexpr = det_value_expr(sbd, apps[0])
+    if bb_vexpr is None:
+        raise AnalysisError('C16.R2: value expression of the backbone determinant not found')
+    val_stmt = apps[0]._parent
     bb_tables = [cfg.get('backbone_NH_hydrogen_bond'), cfg.get('backbone_CO_hydrogen_bond')]
     bb_max = max(abs(r[0]) for t in bb_tables for r in t.values() if len(r) == 3)
     for q in (-1.0, 1.0):
@@ -417,7 +448,7 @@ def run(ctx):
         interp.exit_states(sbd)
         v = NONE
         for env in interp.probes.get(id(apps[0]._parent), []):
-            v = hull(v, env.get('value', TOP))
+            v = hull(v, interp.ev(bb_vexpr, env))
         if q < 0:
             ok = isinstance(v, AV) and v.hi <= EPS and v.lo >= -bb_max - EPS
             msg = 'an acid: the backbone determinant lies in [-%g, 0] (never raises the pKa)' % bb_max
@@ -439,72 +470,137 @@ def run(ctx):
                     sites.append((mod_, qual, fn, c, typestate._owner_of_det_list(c.func.value),
                                   tp.strip("'")))
     ctx.note('determinant_creation_sites', len(sites))
-    nonneg = ('value', 'coulomb_value', 'hbond_value', 'hbond_interaction', 'coulomb_interaction')
     want = {
         ('add_coulomb_acid_pair', 'coulomb'): '+', ('add_coulomb_base_pair', 'coulomb'): '-',
         ('add_coulomb_ion_pair', 'coulomb'): 'q', ('set_ion_determinants', 'coulomb'): '-qion',
         ('add_iterative_acid_pair', 'coulomb'): '+', ('add_iterative_base_pair', 'coulomb'): '-',
         ('add_iterative_ion_pair', 'coulomb'): 'q',
     }
+
+    # Sources of non-negative interaction values, in canonical form (parameters
+    # and reads only): the third parameter of the non-iterative pair helpers and
+    # the [h-bond, Coulomb] pair inside the `interaction` record of the
+    # iterative ones.  Both are backed by obligations on their producers below.
+    def nonneg_sources(fn):
+        params = func_params(fn)
+        if fn.name.startswith('add_coulomb_') and len(params) == 3:
+            return {params[2]}
+        if fn.name.startswith('add_iterative_') and len(params) >= 3:
+            return {'%s[1][0]' % params[2], '%s[1][1]' % params[2]}
+        return set()
+
+    def mark_nonneg(expr, sources):
+        """copy of ``expr`` with every non-negative source replaced by the name nn"""
+        class Sub(ast.NodeTransformer):
+            def generic_visit(self, node):
+                if isinstance(node, ast.expr) and norm(node) in sources:
+                    return ast.Name(id='nn', ctx=ast.Load())
+                return ast.NodeTransformer.generic_visit(self, node)
+        return Sub().visit(expr)
+
     n_checked = 0
+    seen_keys = {}
     for mod_, qual, fn, call, owner, tp in sites:
         rule = want.get((qual, tp))
         if rule is None:
             continue
         n_checked += 1
-        arg = call.args[0]
-        # value expression: Determinant(partner, V) / [partner, V], possibly via a local
-        def value_of(a):
-            if isinstance(a, ast.Call) and call_name(a) == 'Determinant' and len(a.args) == 2:
-                return a.args[1]
-            if isinstance(a, ast.List) and len(a.elts) == 2:
-                return a.elts[1]
-            if isinstance(a, ast.Name):
-                # nearest preceding assignment in the same block
-                blk = call._parent._parent
-                for fld in ('body', 'orelse'):
-                    body = getattr(blk, fld, None)
-                    if isinstance(body, list) and call._parent in body:
-                        idx = body.index(call._parent)
-                        for s in reversed(body[:idx]):
-                            if isinstance(s, ast.Assign) and norm(s.targets[0]) == a.id:
-                                return value_of(s.value)
-            return None
-        vexpr = value_of(arg)
-        key = 'sign:%s:%s:%s' % (qual, owner, tp)
+        can = canon(fn)
+        owner_c = can.text(call.func.value.value.value) if isinstance(call.func.value, ast.Subscript) \
+            and isinstance(call.func.value.value, ast.Attribute) else owner
+        vexpr = det_value_expr(fn, call)
+        params = func_params(fn)
+        role = 'p%d' % params.index(owner_c) if owner_c in params else 'loop'
+        key = 'sign:%s:%s:%s' % (qual, role, tp)
+        seen_keys[key] = seen_keys.get(key, 0) + 1
+        if seen_keys[key] > 1:
+            key += '#%d' % seen_keys[key]
         if vexpr is None:
             ctx.ob('C16.R5', key, False, 'cannot find the determinant value expression', mod_, call)
             continue
-        env = {n: AV(0, INF) for n in nonneg}
-        # owner's charge symbol
-        local_q = {}
-        for s in walk_no_nested(fn):
-            if isinstance(s, ast.Assign) and isinstance(s.targets[0], ast.Name) and \
-                    norm(s.value).endswith(('.charge', '.q')):
-                local_q[s.targets[0].id] = norm(s.value).rsplit('.', 1)[0]
-        txt = norm(vexpr)
+        cexpr = can.expr(vexpr)
+        txt = norm(cexpr)
+        marked = mark_nonneg(can.expr(vexpr), nonneg_sources(fn))
         if rule in ('+', '-'):
-            v = AbsInterp(env, K.consts).ev(vexpr, env)
+            env = {'nn': AV(0, INF)}
+            v = AbsInterp(env, K.consts).ev(marked, env)
             ok = isinstance(v, AV) and ((rule == '+' and v.lo >= 0) or (rule == '-' and v.hi <= 0))
             ctx.ob('C16.R5', key, ok,
                    'the Coulomb determinant put on %s in %s is %s the (non-negative) interaction '
                    'value (expression %s, abstract value %r)' % (
-                       owner, qual, 'plus' if rule == '+' else 'minus', txt, v), mod_, call)
+                       owner_c, qual, 'plus' if rule == '+' else 'minus', txt, v), mod_, call)
         elif rule == 'q':
-            factors = sorted(f.strip() for f in txt.split('*'))
-            qn = [f for f in factors if local_q.get(f) == owner]
-            vals = [f for f in factors if f in nonneg]
-            ctx.ob('C16.R5', key, len(factors) == 2 and len(qn) == 1 and len(vals) == 1,
+            ok = isinstance(marked, ast.BinOp) and isinstance(marked.op, ast.Mult) and sorted(
+                [norm(marked.left), norm(marked.right)]) in (
+                    sorted([owner_c + '.charge', 'nn']), sorted([owner_c + '.q', 'nn']))
+            ctx.ob('C16.R5', key, ok,
                    'the Coulomb determinant put on %s is (charge of %s) x (interaction value): '
-                   'lowers an acid, raises a base (expression %s)' % (owner, owner, txt), mod_, call)
+                   'lowers an acid, raises a base (expression %s)' % (owner_c, owner_c, txt), mod_, call)
         elif rule == '-qion':
-            vs = [s for s in walk_no_nested(fn) if isinstance(s, ast.Assign)
-                  and norm(s.targets[0]) == txt]
-            e = norm(vs[0].value).replace(' ', '') if vs else ''
-            ok = e.startswith('-ion_group.charge*version.calculate_coulomb_energy(')
+            # -(ion charge) * calculate_coulomb_energy(...), the ion being the other loop object
+            e = cexpr
+            neg = False
+            if isinstance(e, ast.UnaryOp) and isinstance(e.op, ast.USub):
+                neg, e = True, e.operand
+            ok = False
+            if isinstance(e, ast.BinOp) and isinstance(e.op, ast.Mult):
+                l, r = e.left, e.right
+                if isinstance(l, ast.UnaryOp) and isinstance(l.op, ast.USub):
+                    neg, l = not neg, l.operand
+                if isinstance(r, ast.UnaryOp) and isinstance(r.op, ast.USub):
+                    neg, r = not neg, r.operand
+                sides = [l, r]
+                charge = [x for x in sides if isinstance(x, ast.Attribute) and x.attr == 'charge'
+                          and norm(x.value) != owner_c and '.get_ions()' in norm(x.value)]
+                energy = [x for x in sides if isinstance(x, ast.Call)
+                          and last_attr(x) == 'calculate_coulomb_energy']
+                ok = neg and len(charge) == 1 and len(energy) == 1
             ctx.ob('C16.R5', key, ok,
                    'an ion shifts the pKa by -(ion charge) x (Coulomb energy): a negative ion '
-                   'raises, a positive ion lowers it (expression %s)' % e[:70], mod_, call)
+                   'raises, a positive ion lowers it (expression %s)' % txt[:110], mod_, call)
+    # producers of the non-negative sources
+    acd = dmod.func('add_coulomb_determinants')
+    can = canon(acd)
+    feeds = [c for c in calls_in(acd, nested=False)
+             if (call_name(c) or '').startswith('add_coulomb_') and len(c.args) == 3]
+    ok = len(feeds) == 3 and all(
+        isinstance(can.expr(c.args[2]), ast.Call) and last_attr(can.expr(c.args[2])) == 'electrostatic_interaction'
+        for c in feeds)
+    other_callers = [f for nm in ('add_coulomb_acid_pair', 'add_coulomb_base_pair', 'add_coulomb_ion_pair')
+                     for f in cg.callers_of(('determinants', nm))
+                     if f != ('determinants', 'add_coulomb_determinants') and not callgraph.versionA_exclude(f)]
+    ctx.ob('C16.R5', 'source:pair-helpers-get-the-coulomb-kernel', ok and not other_callers,
+           'the value handed to add_coulomb_{acid,base,ion}_pair is the result of '
+           'electrostatic_interaction (range decided by C16.R3), from their only caller '
+           '(other callers: %s)' % other_callers, dmod, acd)
+    atl = imod.func('add_to_determinant_list')
+    can = canon(atl)
+    rec_ok = False
+    for c in calls_in(atl, nested=False):
+        if last_attr(c) == 'append' and c.args:
+            rec = can.expr(c.args[0])
+            if isinstance(rec, ast.List) and len(rec.elts) == 3:
+                # [pair, values, annihilation]; values is built up in place
+                vname = c.args[0]
+                vals_defs = [st for st in walk_no_nested(atl) if isinstance(st, ast.Assign)
+                             and isinstance(st.value, ast.List) and len(st.value.elts) == 2
+                             and [last_attr(x) if isinstance(x, ast.Call) else None
+                                  for x in can.expr(st.value).elts]
+                             == ['hydrogen_bond_interaction', 'electrostatic_interaction']]
+                rec_ok = len(vals_defs) == 1 and norm(rec.elts[1]) != ''
+                if rec_ok:
+                    # the record's second slot is that list
+                    raw = c.args[0]
+                    if isinstance(raw, ast.Name):
+                        rdef = [st for st in walk_no_nested(atl) if isinstance(st, ast.Assign)
+                                and norm(st.targets[0]) == raw.id]
+                        raw = rdef[0].value if len(rdef) == 1 else raw
+                    rec_ok = isinstance(raw, ast.List) and len(raw.elts) == 3 \
+                        and norm(raw.elts[1]) == norm(vals_defs[0].targets[0])
+    ctx.ob('C16.R5', 'source:iterative-record-holds-the-two-kernels', rec_ok,
+           'the interaction record of the iterative scheme is [pair, [hydrogen_bond_interaction, '
+           'electrostatic_interaction] with None replaced by 0, annihilation] (ranges decided by '
+           'C16.R3/R4)', imod, atl)
     ctx.ob('C16.R5', 'sign-table:coverage', n_checked >= 11,
            '%d Coulomb determinant creation sites classified against the sign table' % n_checked,
            dmod, dmod.tree)
@@ -533,8 +629,33 @@ def run(ctx):
     iad = imod.func('add_determinants')
     flt = [n for n in walk_no_nested(iad) if isinstance(n, ast.If)
            and 'UNK_MIN_VALUE' in norm(n.test)]
-    ok = len(flt) == 1 and norm(flt[0].test).replace(' ', '') in (
-        'value>UNK_MIN_VALUEorvalue<-UNK_MIN_VALUE', 'abs(value)>UNK_MIN_VALUE')
+    def symmetric_threshold(test):
+        """name X when the test is |X| > UNK_MIN_VALUE in either spelling"""
+        if isinstance(test, ast.Compare) and isinstance(test.ops[0], (ast.Gt, ast.GtE)) \
+                and isinstance(test.left, ast.Call) and call_name(test.left) == 'abs' \
+                and norm(test.comparators[0]) == 'UNK_MIN_VALUE':
+            return norm(test.left.args[0])
+        if isinstance(test, ast.BoolOp) and isinstance(test.op, ast.Or) and len(test.values) == 2 \
+                and all(isinstance(v, ast.Compare) and len(v.ops) == 1 for v in test.values):
+            forms = set()
+            names = set()
+            for v in test.values:
+                l, op, r = v.left, v.ops[0], v.comparators[0]
+                if isinstance(op, (ast.Lt, ast.LtE)):      # normalise to X > c
+                    pass
+                names.add(norm(l))
+                if isinstance(op, (ast.Gt, ast.GtE)) and norm(r) == 'UNK_MIN_VALUE':
+                    forms.add('above')
+                if isinstance(op, (ast.Lt, ast.LtE)) and norm(r).replace(' ', '') == '-UNK_MIN_VALUE':
+                    forms.add('below')
+            if forms == {'above', 'below'} and len(names) == 1:
+                return names.pop()
+        return None
+    ok = False
+    if len(flt) == 1:
+        x = symmetric_threshold(flt[0].test)
+        dets = [c for c in calls_in(flt[0]) if call_name(c) == 'Determinant' and len(c.args) == 2]
+        ok = x is not None and len(dets) == 1 and norm(dets[0].args[1]) == x
     ctx.ob('C16.R3', 'iterative:symmetric-threshold', ok,
            'iterative determinants are kept by a threshold on |value| (both partners alike)',
            imod, flt[0] if flt else iad)
